@@ -333,6 +333,8 @@ def run(ctx):
                                      "non-trivial = a CAS failed or a call failed in the implementation trace"})
         if (not ok or ctx.failures) and not ctx.violations:
             search(ctx, exe)
+    from vf.props import C01
+    C01.runtime_layer(ctx, "rwlock", "read/write lock on the whole runtime", [21, 21, 21, 22, 22, 1], quick_n=150, seedoff=7)
     core.init_contract(ctx, ["fiber_rwlock"])  # rt/h_init.c: real init on dirty memory
     core.finish(ctx, extra_assumptions=ASSUME)
 
@@ -354,6 +356,9 @@ def search(ctx, exe):
 
 
 def replay(ctx, payload):
+    if payload.get("harness") == "kernel":
+        from vf.props import C01
+        return C01.replay(ctx, payload)
     if payload.get("harness") == "h_init":
         return core.replay_init(ctx, payload)
     exe = build(ctx)
